@@ -84,6 +84,10 @@ func (s *Shard) Begin(c *Case) {
 	}
 }
 
+// Tick tells the hang watchdog that the current case is alive (used while the check waits for a child process that
+// reports its own progress).
+func (s *Shard) Tick() { atomic.AddInt64(&s.progress, 1) }
+
 // HangSeconds is far above any legitimate case duration (micro- to milliseconds).
 var HangSeconds = 60
 
